@@ -272,6 +272,28 @@ func (a *ethAPI) Logs(ctx context.Context, crit map[string]interface{}) (*rpc.Su
 }
 
 // publish pushes the logs of t to every subscription whose criteria they meet. Returns how many logs matched.
+// publishRemoved notifies the subscribers that the logs a transaction had in an earlier block were removed by a reorg.
+func (s *simEth) publishRemoved(t *simTx, oldBlock uint64, oldHash common.Hash) int {
+	n := 0
+	cp := *t
+	cp.Block, cp.BlockHash = oldBlock, oldHash
+	for _, ss := range s.subs {
+		for i, l := range t.Logs {
+			if len(ss.addrs) > 0 && !ss.addrs[l.Addr] {
+				continue
+			}
+			if len(ss.topics) > 0 && !ss.topics[l.Topic0] {
+				continue
+			}
+			n++
+			j := s.logJSON(&cp, i, l)
+			j["removed"] = true
+			_ = ss.notifier.Notify(ss.id, j)
+		}
+	}
+	return n
+}
+
 func (s *simEth) publish(t *simTx) int {
 	n := 0
 	for _, ss := range s.subs {
